@@ -242,7 +242,7 @@ pub fn run(tier: Tier, replay: Option<Value>) -> i32 {
         many_hunks(&run);
         return run.finish("replay", &[], None, &[]);
     }
-    run.par_cases(tier.pick(150, 2000), super::threads(), |c| one_history(&run, c));
+    run.par_cases(tier.pick(150, 8000), super::threads(), |c| one_history(&run, c));
     if replay.is_none() {
         many_hunks(&run);
     }
